@@ -280,6 +280,36 @@ Section Hist.
     | _, _ => g
     end.
   Definition masked_at (m : list (list bool)) (y x : nat) : bool := nth x (nth y m []) true.
+  (* the steps on the logical content of a 2-D array: the native grid g with zeros at the masked pixels *)
+  Definition lop2 (mask : list (list bool)) (o : pop) (g : list (list V)) : list (list V) :=
+    zero_fill mask (map (map (pop_fn o)) g).
+  Definition lbop2 (mask : list (list bool)) (b : bop) (g r : list (list V)) : list (list V) :=
+    zero_fill mask (map2 (map2 (bop_fn b)) g r).
+  Definition lset1_2 (mask : list (list bool)) (k : nat) (v : V) (g : list (list V)) : list (list V) := set_unmasked mask g k v.
+  Definition lset2_2 (mask : list (list bool)) (y x : nat) (v : V) (g : list (list V)) : list (list V) :=
+    if masked_at mask y x then g else set2 g y x v.
+  (* the class of objects whose state IS the logical content: what a history of a 2-D array must look like from outside.
+     No stored buffer, no store_native, no native_binned_only; the FITS routes are those of Model.C16 on the grid itself. *)
+  Definition class_log2 (mask : list (list bool)) (sc : V * V) (is_kernel : bool) (sc_read : V * V) : hclass (list (list V)) (list V) obs2T :=
+    mkhclass _ _ _
+      (fun o g => FOk (lop2 mask o g))
+      (fun b g r => FOk (lbop2 mask b g r))
+      (fun g => FOk g) (fun g => FOk g)
+      (fun k v g => FOk (lset1_2 mask k v g))
+      (fun y x v g => FOk (lset2_2 mask y x v g))
+      (fun g => FOk g)
+      (fun flip g => FOk (hdu_for_output_from_2d flip g (pixel_scale_header (scales2 sc))))
+      (fun flip fs g p ow => FOk (numpy_array_2d_to_fits flip fs g p ow (pixel_scale_header (scales2 sc))))
+      (fun flip h => observe2h_g (Array2D_from_primary_hdu flip h))
+      (fun flip fs p k => observe2_g (if is_kernel then Kernel2D_from_fits flip fs p k sc_read false
+                                       else Array2D_from_fits flip fs p sc_read k)).
+  (* 1-D arrays *)
+  Definition lop1 (mask : list bool) (o : pop) (g : list V) : list V := zero_fill_row mask (map (pop_fn o) g).
+  Definition lbop1 (mask : list bool) (b : bop) (g r : list V) : list V := zero_fill_row mask (map2 (bop_fn b) g r).
+  Definition lset1_1 (mask : list bool) (k : nat) (v : V) (g : list V) : list V := set_unmasked_row mask g k v.
+  Definition lset2_1 (mask : list bool) (x : nat) (v : V) (g : list V) : list V := if nth x mask true then g else upd_at g x (fun _ => v).
+  (* no observation produced by a history is an exception of a step *)
+  Definition no_err {X R} (l : list (obsv X R)) : bool := forallb (fun o => match o with OErr _ => false | _ => true end) l.
 End Hist.
 Arguments OPeek {O X R} n. Arguments OHdu {O X R} raw r. Arguments OFile {O X R} w fs_after r. Arguments OErr {O X R} e.
 Arguments mkhst {O S X}. Arguments st_cur {O S X}. Arguments st_reg {O S X}. Arguments st_alias {O S X}.
@@ -386,11 +416,10 @@ Definition rect_like {A B} (g : list (list A)) (m : list (list B)) : bool := sam
 (* 2-D arrays: L = native grid, zero at the masked pixels *)
 Definition lclass_arr2 (mask : list (list bool)) (sc : Q * Q) : lclass (list (list Q)) (list Q) obs2 :=
   mklclass
-    (fun o g => Some (zf2 mask (map (map (@pop_fn QOps o)) g)))
-    (fun b g r => Some (zf2 mask (map2 (map2 (@bop_fn QOps b)) g r)))
-    (fun k v g => if (k <? length (filter negb (concat mask)))%nat then Some (set_unmasked mask g k v) else None)
-    (fun y x v g => if (y <? length mask)%nat && (x <? length (nth y mask []))%nat
-                    then Some (if masked_at mask y x then g else set2 g y x v) else None)
+    (fun o g => Some (@lop2 QOps mask o g))
+    (fun b g r => Some (@lbop2 QOps mask b g r))
+    (fun k v g => if (k <? length (filter negb (concat mask)))%nat then Some (@lset1_2 QOps mask k v g) else None)
+    (fun y x v g => if (y <? length mask)%nat && (x <? length (nth y mask []))%nat then Some (@lset2_2 QOps mask y x v g) else None)
     (fun g => g)
     (fun g r => obs2_spec r g (all_false2 g) sc None None)
     (fun g r => obs2_spec r g (all_false2 g) sc (Some sc) (Some sc))
@@ -398,11 +427,11 @@ Definition lclass_arr2 (mask : list (list bool)) (sc : Q * Q) : lclass (list (li
 (* 1-D arrays *)
 Definition lclass_arr1 (mask : list bool) (sc : Q) : lclass (list Q) Q obs1 :=
   mklclass
-    (fun o g => Some (zf1 mask (map (@pop_fn QOps o) g)))
-    (fun b g r => Some (zf1 mask (map2 (@bop_fn QOps b) g r)))
-    (fun k v g => if (k <? length (filter negb mask))%nat then Some (set_unmasked_row mask g k v) else None)
+    (fun o g => Some (@lop1 QOps mask o g))
+    (fun b g r => Some (@lbop1 QOps mask b g r))
+    (fun k v g => if (k <? length (filter negb mask))%nat then Some (@lset1_1 QOps mask k v g) else None)
     (fun y x v g => match y with
-                    | Datatypes.O => if (x <? length mask)%nat then Some (if nth x mask true then g else upd_at g x (fun _ => v)) else None
+                    | Datatypes.O => if (x <? length mask)%nat then Some (@lset2_1 QOps mask x v g) else None
                     | _ => None
                     end)
     (fun g => g)
